@@ -4,6 +4,8 @@ NOTES = ("Technique family: runtime monitoring and sanitizers. Every verdict is 
          "evidence files report what the monitors saw. See DESIGN.md.")
 
 ENGINES = [
+    {"name": "conc", "path": "harness/src/engines/conc.rs + conc2.rs + harness/src/lin.rs", "serves_properties": ["C07", "C08", "C13", "C14", "C16"],
+     "kind_free_text": "concurrent runtime monitors: lin = recorded histories + per-key WGL linearizability checker; reuse = genuineness/recency oracle over self-describing values + pinned-extent monitor; memlimit = instantaneous usage bound + quiescent exact accounting; scan = range-result shape/completeness oracle; all with perturbed scheduling points"},
     {"name": "crash", "path": "harness/src/engines/crash.rs", "serves_properties": ["C02", "C03", "C04"],
      "kind_free_text": "trace-based crash-consistency monitor: records the device write/fsync trace of real workloads (hook H1), enumerates crash images (cut x subset of unsynced writes x sector tearing), recovers each with the real store and judges against per-key generation histories and acknowledgements; idem mode re-crashes inside recovery's own writes"},
     {"name": "model", "path": "harness/src/engines/model.rs", "serves_properties": ["C01", "C10", "C11", "C12", "C13", "C14", "C16"],
@@ -22,7 +24,22 @@ _MODEL_NOTE = ("Trusted: reference model M1 and (where used) independent codec M
 _CRASH_NOTE = ("Trusted: the crash model (issue-order device, fsync barrier, independent loss + one sector-torn write among unsynced writes), the H1 trace hook, "
                "and the per-key history recorded at the client boundary (one writer per key; real-time order from a global logical clock). Reach = the workloads and cuts enumerated; 16-bit tokens are not attacked cryptographically.")
 
+_CONC_NOTE = ("Trusted: client-boundary history recording with one global logical clock; the sequential register spec (harness/src/lin.rs, 100 lines); H3 scheduling points only add bounded delays. "
+              "Probabilistic reach into each window, compensated by targeted delays; evidence counts, per scheduling point, arrivals / perturbed / windows in which another operation completed.")
+
 TEXT = {
+    "C07": {
+        "engine": "conc(lin)",
+        "technique": "runtime history recording + offline per-key linearizability checking (WGL search with memoisation) against a last-writer-wins register spec with the two permitted conservative refusals",
+        "level_text": "Thousands (quick) to hundreds of thousands (thorough) of short histories: 2-4 threads x 3-8 calls on 1-3 hot keys (get/insert/delete/CAS/increment/insert_if_absent/JSON-patch append) in two timestamp regimes (all-explicit unique timestamps; all automatic), on memory-only and persistent stores (flusher thread, cache on/off, 1-8 shards) so generations move between resident/cached/offloaded while raced. Each key's sub-history plus a final read must linearize; OlderTimestamp / CAS-false refusals are tolerated only under the statement's side conditions, and how often they are used is reported. Exploration of the interleavings produced; not exhaustive.",
+        "level_note": _CONC_NOTE,
+    },
+    "C08": {
+        "engine": "conc(reuse)",
+        "technique": "runtime monitoring: self-describing values judged against recorded single-writer write intervals (genuineness + recency), plus an online monitor joining reader extent pins (H3b) with device writes (H1)",
+        "level_text": "Readers (get, get_bytes, range_query, CAS with another key's value as expected value) race single-writer-per-key updates across 1-4-block size classes, delete/recreate, TTL-only rewrites (deferred records) and a continuous flush loop on 24-96-block devices, so retired extents are handed to other keys within milliseconds; cache on and off; delays injected at the pin / pread / identity-check / retirement / release points. Every value read must be a complete stored value of that key admissible for the read's interval; KeyNotFound only if absence is admissible; StaleExtent only while the key is being rewritten; no device write may overlap an extent a reader has pinned.",
+        "level_note": _CONC_NOTE + " One writer per key; readers never modify.",
+    },
     "C02": {
         "engine": "crash",
         "technique": "runtime trace monitoring + enumeration of crash images (cut x lost-subset x sector tearing) replayed into the real recovery; offline oracle over acknowledgement-relative generation windows",
@@ -68,19 +85,19 @@ TEXT = {
     "C13": {
         "engine": "model",
         "technique": "runtime differential monitoring of len()/memory_usage() after every call, with memory limits (sequential part)",
-        "level_text": "Memory-biased programs with limits admitting only some writes: after every call memory_usage() must equal the sum over live keys of (measured overhead + key + value), len() the number of live keys, usage never above the limit, refused writes change nothing (same record objects), and draining every key returns usage to zero; across flush and recovery. Concurrent admission is covered by the concurrency engine when registered.",
+        "level_text": "Memory-biased programs with limits admitting only some writes: after every call memory_usage() must equal the sum over live keys of (measured overhead + key + value), len() the number of live keys, usage never above the limit, refused writes change nothing (same record objects), and draining every key returns usage to zero; across flush and recovery. Concurrent part: 8-16 creators/growers/shrinkers/deleters/incrementers against a limit admitting only some of them, with a monitor thread sampling memory_usage() continuously and a deterministic probe reading it while several writers are parked between reservation and publish (hook point mem.reserved): usage <= limit at every sample, equal-sized records never exceed floor(limit/size) live keys, refused writes leave the key as it was, exact equality and zero-after-drain at quiescence.",
         "level_note": _MODEL_NOTE,
     },
     "C14": {
         "engine": "model",
         "technique": "runtime differential monitoring of range_query against the model's ordered map; ordered/hashed index agreement at every quiescent point (sequential part)",
-        "level_text": "Range-biased programs over byte-string keys with shared prefixes, empty/0x00/0xff bounds, start>end, limits 0/1/exact/usize::MAX, expired entries in the middle, all residencies; results must equal the model's; after every call the ordered index and the hash index hold the same keys pointing at the same record objects. Concurrent scans are covered by the concurrency engine when registered.",
+        "level_text": "Range-biased programs over byte-string keys with shared prefixes, empty/0x00/0xff bounds, start>end, limits 0/1/exact/usize::MAX, expired entries in the middle, all residencies; results must equal the model's; after every call the ordered index and the hash index hold the same keys pointing at the same record objects. Concurrent part: scanners race churn (insert/update/delete/flush) on keys interleaved lexicographically with a stable key set (20-600 keys, scans crossing the 256-entry re-pin): results strictly ascending, inside bounds, <= limit, each value genuine for its key; every stable key inside the returned window appears exactly once; keys deleted before the scans began never appear; index agreement at quiescence.",
         "level_note": _MODEL_NOTE,
     },
     "C16": {
         "engine": "model",
         "technique": "runtime differential monitoring: identical model, cache on vs cache off, with cache hits confirmed through statistics and the H5 accessor (sequential part)",
-        "level_text": "Read-heavy programs with frequent flushes on paired configurations (cache on / off) are each compared step by step with the same reference model, so any call whose result depends on the cache is a mismatch; hits are confirmed (cache_hits delta while the key is cached). Covers updates, deletes, re-creation with lower timestamps, TTL changes and restarts masking stale entries. Cache-level accounting/eviction and concurrent staleness are covered by the cache/concurrency engines when registered.",
+        "level_text": "Read-heavy programs with frequent flushes on paired configurations (cache on / off) are each compared step by step with the same reference model, so any call whose result depends on the cache is a mismatch; hits are confirmed (cache_hits delta while the key is cached). Covers updates, deletes, re-creation with lower timestamps, TTL changes and restarts masking stale entries. Concurrent part: the reuse engine (readers racing updates/deletes/TTL rewrites/flushes with genuineness+recency oracle) is run with the cache on, where a stale hit would surface as a stale value. Cache-level accounting/eviction is covered by the cache engine when registered.",
         "level_note": _MODEL_NOTE,
     },
     "C06": {
